@@ -123,7 +123,7 @@ def C07():
                mirjobs.fn_asserts(r"^get_payload_field$", "CHALLENGE buffer offsets", call_model=mirjobs.ntlm_payload_model, assume=mirjobs.ntlm_payload_assume, native=lambda m: mirjobs.NLA_NATIVES[r"^get_payload_field$"])),
         MirJob("c07_mir_panic_sites", "NLA read path (read_ts_server_challenge, read_ts_validate, read_public_certificate, read_challenge_message, get_payload_field, read_target_info, gss_unwrapex): every reachable unwrap/expect/index/panic call is on a justified allow-list",
                mirjobs.panic_sites(mirjobs.NLA_TARGETS, mirjobs.NLA_NATIVES)),
-        MirJob("c07_mir_no_read_loops", "no function of nla/cssp.rs contains a loop: the CredSSP exchange reads each server message once and cannot spin on a closed or stalled connection", mirjobs.acyclic("src/nla/cssp.rs")),
+        MirJob("c07_mir_no_read_loops", "no function of nla/cssp.rs contains a loop: the CredSSP exchange reads each server message once and cannot spin on a closed or stalled connection", mirjobs.acyclic("src/nla/cssp.rs", native=mirjobs.CSSP_HOSTILE_NATIVE)),
         MirJob("c07_mir_arith", "read_challenge_message / gss_unwrapex / read_target_info: no arithmetic check of their own can fail on wire values",
                mirjobs.multi(mirjobs.fn_asserts(r"ntlm::<impl at src/nla/ntlm\.rs[^>]*>::gss_unwrapex$", "sealed token"),
                              mirjobs.fn_asserts(r"^read_target_info$", "AV pairs"))),
